@@ -490,7 +490,7 @@ func checkC05(c *Ctx) {
 			if ir.HasField(s, "crypto/x509.Certificate.RawSubject") {
 				bad = append(bad, "the signer is named by the certificate's subject instead of its issuer")
 			}
-			if haveSig && s[sigVal.v] {
+			if haveSig && ir.StripConv(dv.resolveConv(arg, di.fr).v) == sigVal.v {
 				// the signature placed under an explicitly framed OCTET STRING
 				okSig = true
 				continue
